@@ -157,7 +157,7 @@ template<int DD> void history_t(Case& c) {
 				bool uneq = (!AEQ && !POCMA && A.aid != B.aid);
 				opk = uneq ? "move-assign(unequal-alloc)" : (A.m.n() == 0 ? "move-assign(to-empty)" : "move-assign"); d << opk << "(" << a << "<-" << b << ")"; cur_op = d.str(); op(opk); softcfg().opk = opk; long c0 = registry().special();
 				*A.a = std::move(*B.a); if(!uneq && registry().special() != c0) V("C04:move-assign:touched-elements", "move assignment copied/moved/assigned " + std::to_string(registry().special() - c0) + " elements");
-				A.m = B.m; if(POCMA) { A.aid = B.aid; A.agen = B.agen; } if(!uneq) { B.m = empty_model(); if(D == 0) { B.m = A.m; B.m.unspec = true; } } else { B.m.unspec = true; B.m.base_known = false; } had_assign_over_state = true; break; }
+				A.m = B.m; if(POCMA) { A.aid = B.aid; A.agen = B.agen; } if(!uneq) { B.m = empty_model(); if(D == 0) { B.m = A.m; B.m.unspec = true; } } else { adopt(B); } had_assign_over_state = true; break; }
 			case 9: if constexpr(DD >= 1) { if(!A.a || !B.a || a == b) break; if(!AEQ && !POCS && A.aid != B.aid) break; opk = "swap"; d << opk << "(" << a << "," << b << ")"; cur_op = d.str(); op(opk); softcfg().opk = opk; long c0 = registry().special();
 				if(g.chance(1, 2)) swap(*A.a, *B.a); else A.a->swap(*B.a); if(registry().special() != c0) V("C04:swap:touched-elements", "swap of arrays touched elements"); std::swap(A.m, B.m); if(POCS) { std::swap(A.aid, B.aid); std::swap(A.agen, B.agen); } break; } break;
 			case 10: case 11: { if(!A.a || !B.a || a == b) break; Model vm; MV mv; int k = int(g.below(6)); if(!view_of(k, B.m, vm, mv)) break; static char const* VN[] = {"transposed", "rotated", "sliced", "strided", "unrotated", "inner-transposed"};
